@@ -171,8 +171,45 @@ GROUPS["bvf_arith"] = dict(name="bvf_arith",
     prelude=lambda ctx: WORD_PRELUDE + ["conv_std.rs"] + VALUE_PRELUDE + ["bvf.rs", "bvf_val.rs"] + rhs_bvf_prelude(ctx) + ["bvf_arith.rs"],
     items=lambda ctx: BVF_BASE + rhs_bvf_items(ctx) + stub(BVF_CORE) + verify(["bvf.addsub_bvf"]))
 
+def xd(ctx):
+    """suffix of the u64 word vocabulary used by a Bvd operand inside a Bvf<I,_> file"""
+    return "" if ctx["I"] == "u64" else "_u64"
+
+RHS_D = {"I": "u64", "J": "{I}", "X": "{XD}", "Y": ""}      # container words u64 (Bvd), chunk type I
+
+def rhs_bvd_prelude(ctx):
+    p = ["iarray.rs"]
+    if ctx["I"] != "u64":
+        p += [("word.rs", {"I": "u64", "X": "_u64"})]
+        if "SGN" in ctx:
+            p += [("value_word.rs", {"I": "u64", "X": "_u64"})]
+    p += [("bvd.rs", {"X": "{XD}"}), ("chunk.rs", RHS_D)]
+    if "SGN" in ctx:
+        p += [("chunk_value.rs", RHS_D)]
+    return p
+
+def rhs_bvd_items(ctx):
+    it = [("decl", "decl.Bvd")]
+    if ctx["I"] != "u64":
+        over = {"I": "u64", "X": "_u64"}
+        it += [("decl", "int.constants", over)] + [("stub", u, over) for u in INT_METHODS]
+    it += slice_ia("stub", RHS_D) + [("stub", "bvd.int_len", RHS_D), ("stub", "bvd.get_int", RHS_D)]
+    return it
+
+GROUPS["bvf_bitops_bvd"] = dict(name="bvf_bitops_bvd", features="#![feature(allocator_api)]",
+    prelude=lambda ctx: BVF_PRELUDE + rhs_bvd_prelude(ctx),
+    items=lambda ctx: BVF_BASE + rhs_bvd_items(ctx) + stub(BVF_CORE) + verify(["bvf.binop_bvd"]))
+
 GROUPS["bvd_bitops"] = G("bvd_bitops", BVD_PRELUDE, BVD_BASE + stub(BVD_CORE) + verify(["bvd.binop_bvd"]))
 GROUPS["bvd_bitops"]["features"] = "#![feature(allocator_api)]"
+
+ARITH_D = {
+    "add": dict(ARITH["add"], OVF="overflowing_add"),
+    "sub": dict(ARITH["sub"], OVF="overflowing_sub"),
+}
+BVD_VAL_PRELUDE = WORD_PRELUDE + ["conv_std.rs"] + VALUE_PRELUDE + ["bvd.rs", "bvd_val.rs"]
+GROUPS["bvd_arith"] = G("bvd_arith", BVD_VAL_PRELUDE + ["bvd_arith.rs"], BVD_BASE + stub(BVD_CORE) + verify(["bvd.addsub_bvd"]))
+GROUPS["bvd_arith"]["features"] = "#![feature(allocator_api)]"
 
 def cmp_prelude(ctx):
     """self: Bvf<I,_>, other: Bvf<J,_>, both read in chunks of J"""
@@ -296,6 +333,18 @@ PROPS["C01"] = {
     "thorough": [("bvf_arith", pair(i, j, **ARITH[o])) for i in W4 for j in W4 for o in ("add", "sub")] + jobs("int_prims", W4),
 }
 
+BVD_ARITH_JOBS = [("bvd_arith", dict(U64, **ARITH_D[o])) for o in ("add", "sub")]
+PROPS["C01"]["quick"] += BVD_ARITH_JOBS
+PROPS["C01"]["thorough"] += BVD_ARITH_JOBS
+# C03 (wrap-around / normalisation after every arithmetic and bitwise operation) and C20 (all operator forms funnel into the
+# compound-assignment bodies) ride on the same verified units: each is tagged with the properties it carries
+_ARITH_Q = [("bvf_arith", pair(i, j, **ARITH[o])) for (i, j) in [("u64", "u64"), ("u8", "u64")] for o in ("add", "sub")]
+_BITOPS_Q = [("bvf_bitops", pair(i, j, **BITOPS[o])) for (i, j) in [("u64", "u64"), ("u64", "u8")] for o in ("and", "or", "xor")] + \
+            [("bvd_bitops", dict(U64, **BITOPS[o])) for o in ("and", "or", "xor")]
+PROPS["C03"] = {"quick": _ARITH_Q + BVD_ARITH_JOBS + _BITOPS_Q, "thorough": PROPS["C01"]["thorough"] + PROPS["C04"]["thorough"]}
+PROPS["C20"] = {"quick": _ARITH_Q + BVD_ARITH_JOBS + _BITOPS_Q, "thorough": PROPS["C01"]["thorough"] + PROPS["C04"]["thorough"]}
+PROPS["C02"] = {"quick": BVD_ARITH_JOBS[1:], "thorough": BVD_ARITH_JOBS}
+
 # -------------------------------------------------------------------------------------------------
 # manifest texts
 NOT_CLAIMED = {}
@@ -351,9 +400,16 @@ def dyn_only(pid, what, todo):
         note=("NOT a proof. " + todo + " " + TRUST_NOTE),
         technique="executable contracts on the real crate: seeded random search every run + Kani/CBMC bounded-exhaustive on small types (stand-in for contract units still to be written)")
 dyn_only("C02", "div_rem, /, %, /=, %= against u128 division for nine implementation pairings and native divisors; zero divisors must panic (checked natively).",
-         "Contract units for div_rem (value-level loop invariant prototyped in notes/) are not yet woven; D7 (divisor longer than capacity) was found and fixed.")
-dyn_only("C03", "random histories of up to 6 public operations (23 kinds: edits, arithmetic/logic with operands of another implementation, shifts, rotations, slicing, read) followed by a comparison of EVERY observer and of the next operation against a freshly built vector with the same bits.",
-         "The inductive argument (every unit establishes wf and a functional [bits] clause) holds for the units already under contract (see C04/C05/C06/C07/C08/C16/C18 evidence) but the audit over all public functions is not complete.")
+         "Contract units for div_rem (value-level loop invariant prototyped in notes/) are not yet woven; D7 (divisor longer than capacity) was found and fixed. One callee of the division loop IS verified on every run of this check: "
+         "Bvd -= &Bvd (value-level contract, unit bvd.addsub_bvd); a definite failure of that unit is reported as a violation of this property.")
+MANIFEST_TEXT["C03"] = dict(
+    text=("Proof (per operation, inductive over histories): every unit under contract takes a well-formed vector (len <= capacity, every storage bit at or beyond len zero) to a well-formed vector and states its "
+          "result over the whole abstract view, so after ANY sequence of the operations under contract the storage is normalised and every observer under contract sees only the bits below len; the check of this "
+          "property re-verifies the arithmetic and bitwise compound assignments (Bvf op= &Bvf for both chunking branches, Bvd op= &Bvd; value-level wrap-around contract for += and -=), the other families are "
+          "re-verified under C04-C08, C16, C18. Exploration for the rest: random histories of up to 6 public operations (23 kinds, operands of other implementations) followed by a comparison of EVERY observer and of the "
+          "next operation against a freshly built vector with the same bits." + DYN_NOTE),
+    note=("The induction covers only operations under contract (see functions_under_contract in the evidence of C01, C04-C09, C16, C18, C19); multiplication, division, conversions, Bv dispatch and mixed-implementation "
+          "operands are covered by the second engine only. " + TRUST_NOTE))
 MANIFEST_TEXT["C09"] = dict(
     text=("Proof: PartialEq::eq and PartialOrd::partial_cmp between Bvf<I2,N2> and Bvf<I1,N1> (any two word sizes; chunk-wise comparison through get_int from the most significant chunk) are verified against the VALUE-level contract "
           "`r == (val(a) == val(b))` resp. `r == Some(val(a).cmp(val(b)))`, using a proved theory of the unsigned value of a bit list (injectivity, order decided by the top differing bit). Reflexivity/symmetry/transitivity/totality follow because both are the same function of two naturals." + DYN_NOTE),
@@ -365,11 +421,11 @@ dyn_only("C13", "to_vec/write/from_bytes/read for both endiannesses incl. surplu
 dyn_only("C14", "Display/Binary/Octal/LowerHex/UpperHex under 15 format specifications against Rust's formatting of the u128 value.", "Formatter units (pad_integral model) not yet written.")
 dyn_only("C15", "from_binary/from_hex over random strings from an alphabet with valid digits, invalid ASCII and a non-ASCII character (accept set, length, first bad index, capacity error) and parse(format(v)) == v; Bv on both sides of the inline limit.", "Parsing loops are driven by str::chars().enumerate(): outside Verus's front end (DESIGN 2.2); bounded/random is the planned level.")
 dyn_only("C17", "random interleavings of next/next_back/nth/nth_back/size_hint/count/last with arguments up to usize::MAX against std's slice iterator over the same bits.", "BitIterator units not yet woven; D9 was found and fixed.")
-dyn_only("C20", "every owned/borrowed/assign form of + - * / % & | ^ << >> ! and the native-integer forms against each other (identical length and bits), borrowed operands unchanged.", "Generated form units not yet written.")
+dyn_only("C20", "every owned/borrowed/assign form of + - * / % & | ^ << >> ! and the native-integer forms against each other (identical length and bits), borrowed operands unchanged.", "The forwarding forms themselves are not under contract. The bodies every form funnels into ARE verified on every run of this check (Bvf op= &Bvf for + - & | ^, Bvd op= &Bvd for + - & | ^: units tagged C20); a definite failure there is reported as a violation of this property.")
 MANIFEST_TEXT["C01"] = dict(
     text=("Proof (add/sub): the real bodies of AddAssign/SubAssign<&Bvf<I2,N2>> for Bvf<I1,N1> (both the same-word-size branch and the re-chunking branch through get_int) are verified against the VALUE-level contract "
           "val(result) == (val(a) +/- val(b)) mod 2^len, len unchanged, storage beyond len zero, on top of verified contracts of the word primitives cadd/csub/wmul/mask and of the carry-chain/bridge lemmas (spec/prelude/value*.rs)." + DYN_NOTE),
-    note=(COVER_BVF.replace("and the Bvd implementation (symbolic word count, spare capacity included), ", "") + "Not yet under contract: multiplication, Bvd/Bv left operands, &Bvd/&Bv/native right operands (covered only by the second engine). " + TRUST_NOTE))
+    note=(COVER_BVF.replace("and the Bvd implementation (symbolic word count, spare capacity included), ", "") + "Also verified: Bvd += / -= &Bvd (two-step overflowing_add/sub carry chain, symbolic word count, spare capacity). Not yet under contract: multiplication, Bv left operands, mixed Bvf/Bvd operands, native right operands (covered only by the second engine). " + TRUST_NOTE))
 MANIFEST_TEXT["C04"] = dict(
     text=("Proof: BitAnd/BitOr/BitXorAssign<&Bvf<I2,N2>> for Bvf<I1,N1> (both branches), the same three for Bvd with a &Bvd operand, Not for Bvf/&Bvf/Bvd are verified against the bit-by-bit contract with the right operand zero-extended and ignored beyond len; wf of the result is the 'no bit of b at index >= n influences later observations' clause." + DYN_NOTE),
     note=(COVER_BVF + "Not yet under contract: &Bvd/&Bv/native right operands of Bvf, &Bvf operand of Bvd, Not for &Bvd, Bv dispatch (covered only by the second engine). " + TRUST_NOTE))
